@@ -337,7 +337,7 @@ func (i *Info) ChannelCounts() map[string]uint64 {
 			// statistics may name channels the summary does not list
 			continue
 		}
-		counts[channel.Topic] = v
+		counts[channel.Topic] += v
 	}
 	return counts
 }
